@@ -46,6 +46,14 @@ inductive Kind | event | other
 inductive Ev
   | send                            -- a caller starts a request (request number and key allocated here)
   | burn                            -- a key is consumed without a waiter (Companion send_opack)
+  | sendFail                        -- a caller starts a request whose transmission raises
+                                    -- (connection.send / transport.write / send processor):
+                                    -- MRP protocol.py:258 before `_receive` registers anything,
+                                    -- Companion protocol.py:164 before `_queues[id] = …` (the XID
+                                    -- is consumed), HTTP http.py:458 before `appendleft`, RTSP:
+                                    -- the CSeq is consumed (the leaked `requests[cseq]` entry can
+                                    -- never be observed: a response with that CSeq is dropped
+                                    -- with or without it)
   | recv (k : Option Nat) (v : Nat) -- a message arrives: identifier (if it carries one), payload id
   | msg (kd : Kind) (k : Option Nat) (v : Nat) -- a message whose type field says "not a response"
                                     -- arrives; it may still carry an identifier-valued field
@@ -60,6 +68,7 @@ inductive Out
   | drop (k : Option Nat) (v : Nat)          -- message discarded (log only)
   | timeoutErr (r : Nat)                     -- caller r gets a timeout error
   | fault (r : Nat)                          -- caller r gets another error (KeyError); proved unreachable
+  | sendErr                                  -- the caller of a failed send gets that exception
   deriving DecidableEq, Repr
 
 abbrev Trace := List (Ev × List Out)
@@ -135,6 +144,7 @@ def kstep (cfg : Cfg) (s : KState) : Ev → KState × List Out
          kof := fun r => if r = s.nreq then s.nkey else s.kof r },
        [.sent s.nreq s.nkey])
   | .burn => ({ s with nkey := s.nkey + 1 }, [])
+  | .sendFail => ({ s with nkey := s.nkey + 1 }, [.sendErr])
   | .recv k v => krecv cfg s k v
   | .msg kd k v =>
       if cfg.typed then
@@ -163,6 +173,7 @@ def finit : FState := ⟨0, []⟩
 def fstep (s : FState) : Ev → FState × List Out
   | .send => (⟨s.nreq + 1, s.queue ++ [s.nreq]⟩, [.sent s.nreq s.nreq])
   | .burn => (s, [])
+  | .sendFail => (s, [.sendErr])   -- write / send processor raise BEFORE the entry is queued
   | .msg _ _ _ => (s, [])     -- HTTP carries responses only
   | .recv k v =>
       match s.queue with
@@ -236,6 +247,7 @@ def rstep (s : RState) : Ev → RState × List Out
          kof := fun x => if x = r then s.cseq else s.kof x },
        [.sent r s.cseq])
   | .burn => (s, [])
+  | .sendFail => ({ s with http := (fstep s.http .sendFail).1, cseq := s.cseq + 1 }, [.sendErr])
   | .msg _ _ _ => (s, [])
   | .recv k v =>
       match fstep s.http (.recv k v) with
@@ -276,6 +288,7 @@ def tinit : Tracker := ⟨0, 0, []⟩
 def tstep (t : Tracker) : Ev → Tracker
   | .send => { t with n := t.n + 1 }
   | .burn => t
+  | .sendFail => t
   | .msg _ _ _ => t
   | .recv _ _ => { t with m := t.m + 1 }
   | .timeout r => if t.m ≤ r ∧ r < t.n ∧ r ∉ t.ab then { t with ab := r :: t.ab } else t
@@ -313,5 +326,6 @@ def Out.toStr : Out → String
   | .drop k v => s!"drp:{optStr k}:{v}"
   | .timeoutErr r => s!"tmo:{r}"
   | .fault r => s!"flt:{r}"
+  | .sendErr => "ser"
 
 end PyatvModel.C03
